@@ -45,7 +45,9 @@ fn run_one(script: &str) -> String {
         4 => storage_cmds::run_script::<4>(script),
         8 => storage_cmds::run_script::<8>(script),
         32 => storage_cmds::run_script::<32>(script),
+        138 => storage_cmds::run_script::<138>(script),
         250 => storage_cmds::run_script::<250>(script),
+        503 => storage_cmds::run_script::<503>(script),
         1000 => storage_cmds::run_script::<1000>(script),
         _ => format!("HARNESS-ERROR unsupported key size {}\n", k),
     }
